@@ -1,5 +1,5 @@
 import Mixin.Model.Membership
-import Mixin.Model.Custodian
+import Mixin.Model.CustodianLookup
 import Mixin.Proofs.Membership
 import Mixin.Proofs.Upsert
 import Mixin.Facts.ExpectedC10
@@ -161,7 +161,7 @@ theorem views_prefix_stable (n : Node) (h later : List Rec) (t : Nat)
     threshold_stable hag, keys_stable hag, elect_stable hag, identity_stable hag⟩
 
 /-! ## custodian -/
-open Mixin.Custodian
+open Mixin.CustodianLookup
 
 /-- every cache entry is the parse result of its key -/
 def CacheOk (parse : Parse) (c : Cache) : Prop := ∀ e ∈ c, parse e.1.1 e.1.2 = some e.2
